@@ -118,4 +118,16 @@ theorem mpz_com_spec (a : Z) (ha : a.WF) :
 example : mpz_com ⟨false, [B - 1, B - 1]⟩ = ⟨true, [0, 0, 1]⟩ := by decide
 example : mpz_com ⟨true, [0, 0, 1]⟩ = ⟨false, [B - 1, B - 1]⟩ := by decide
 
+/-! ## mpz_tstbit -/
+
+/-- mpz_tstbit returns bit `i` of the infinite two's-complement expansion (`Int.testBit`), for every index:
+    below, inside and beyond the operand, both signs. -/
+theorem tstbit_spec (u : Z) (hu : u.WF) (i : Nat) :
+    mpz_tstbit u i = if Int.testBit u.toInt i then 1 else 0 := by
+  rw [← testBit_eq]; exact mpz_tstbit_testBit u hu i
+-- -(B^2) : bits 0..127 are 0, bit 128 and everything above is 1
+example : (mpz_tstbit ⟨true, [0, 0, 1]⟩ 127, mpz_tstbit ⟨true, [0, 0, 1]⟩ 128, mpz_tstbit ⟨true, [0, 0, 1]⟩ 100000)
+    = (0, 1, 1) := by decide
+example : (mpz_tstbit ⟨true, [0, 6]⟩ 64, mpz_tstbit ⟨true, [0, 6]⟩ 65, mpz_tstbit ⟨true, [0, 6]⟩ 66) = (0, 1, 0) := by decide
+
 end Mpir.Bits
